@@ -578,8 +578,29 @@ func c08EngineLayer(x *c08Ctx, c *Ctx) int64 {
 			mu.Unlock()
 		})
 	}
+	// one twin disables every copy of its rule (the same text twice in the lists)
+	copies := func(name string, pool []srule, verdict func([]string) string) {
+		none := verdict(nil)
+		for _, s := range pool {
+			x, t := s.text(), s.twin(len(s.opts)).text()
+			for _, lines := range [][]string{{x, x, t}, {x, t, x}, {t, x, x}} {
+				mu.Lock()
+				evals++
+				mu.Unlock()
+				if got := verdict(lines); got != none {
+					x2 := x
+					c.Run.Violate(ev.Violation{Pred: "engine-twins-leave-verdict-unchanged", Sig: map[string]any{"engine": name, "copies": x2},
+						What:   fmt.Sprintf("%s: list %v gives %s, the empty list gives %s", name, lines, got, none),
+						Replay: map[string]any{"seq": lines, "base_verdict": ""}})
+					break
+				}
+			}
+		}
+	}
 	layer("web", web, webVerdict)
 	layer("dns", dns, dnsVerdict)
+	copies("web", web, webVerdict)
+	copies("dns", dns, dnsVerdict)
 	return evals
 }
 
